@@ -105,7 +105,7 @@ impl Val for Body {
     fn name(&self) -> String { self.1.clone() }
 }
 
-const DONOR: usize = 64;
+const DONOR: usize = 128;
 fn donor<T: Val>() -> Interner<T> {
     let mut d = Interner::new();
     for i in 0..DONOR {
